@@ -77,7 +77,7 @@ CHECKS = {
             "7 C17", HX_NOTE),
     "C18": ("hx", "model_checking",
             "bounded exhaustive exploration of histories with exact recomputation of the seqno marks from stored items",
-            "After every step get_highest_persisted_seqno / get_highest_memtable_seqno / get_highest_seqno are compared with the maximum over a full scan of every table (global seqno included) and every memtable, on standard and blob trees, with ingestion, clear, drop_range and reopen in the alphabet.",
+            "After every step get_highest_persisted_seqno / get_highest_memtable_seqno / get_highest_seqno are compared with the maximum over a full scan of every table (global seqno included) and every memtable, on standard and blob trees (also without filters / with expect_point_read_hits), with ingestion, clear, drop_range and reopen in the alphabet; plus a 3-thread scenario under the controlled scheduler (every schedule with <= 2 / 3 preemptions): while a flush moves data from memtable to table the marks are never below a write acknowledged before the call.",
             "7 C18", HX_NOTE),
     "C19": ("hx", "model_checking",
             "bounded exhaustive exploration of append-only histories x FIFO (limit, ttl) derived from the current table sizes, with a clock seam",
@@ -85,7 +85,7 @@ CHECKS = {
             "7 C19", HX_NOTE + " The wall clock is overridden through the verif_hooks clock seam."),
     "C20": ("hx", "model_checking",
             "bounded exhaustive exploration of histories with a directory-listing oracle",
-            "After every step every file named by any entry of the version history must exist; after a version change made with watermark MAX while no snapshot is held, and after every reopen, the directory must contain exactly the files the current version names.",
+            "After every step every file named by any entry of the version history must exist; after a version change made with watermark MAX while no snapshot is held, and after every reopen, the directory must contain exactly the files the current version names; and every crash image of the C05 enumeration, once recovered, must hold no table, blob or version file the recovered version does not name.",
             "7 C20", HX_NOTE + " Histories with failed operations are not in this check (see C16/C05)."),
 }
 
